@@ -141,7 +141,7 @@ const structuredRule = "rapid grammar of request documents: each envelope member
 
 func TestPropStructured(t *testing.T) {
 	h := newHarness(4, false)
-	stats.Check(t, stats.Budget{Quick: 6000, Thorough: 70000}, structuredRule,
+	stats.Check(t, stats.Budget{Quick: 25000, Thorough: 150000}, structuredRule,
 		func(rt *rapid.T, c *stats.Case) {
 			g := newGen(rt, c, false)
 			in, info := g.document()
@@ -154,7 +154,7 @@ func TestPropStructured(t *testing.T) {
 // TestPropTransports: the same documents through the other entry points (1-byte reads, HandleReadWriter, HTTP, HTTP+gzip).
 func TestPropTransports(t *testing.T) {
 	h := newHarness(4, false)
-	stats.Check(t, stats.Budget{Quick: 2500, Thorough: 25000}, structuredRule+"; transport drawn from {HandleReader fed one byte at a time, HandleReadWriter, HTTP POST via httptest, HTTP with gzip}",
+	stats.Check(t, stats.Budget{Quick: 8000, Thorough: 50000}, structuredRule+"; transport drawn from {HandleReader fed one byte at a time, HandleReadWriter, HTTP POST via httptest, HTTP with gzip}",
 		func(rt *rapid.T, c *stats.Case) {
 			g := newGen(rt, c, false)
 			tr := transport(g.pick("transport", 0, 2, 3, 3, 2))
@@ -175,7 +175,7 @@ func TestPropPositionalNamedAgree(t *testing.T) {
 			withParams = append(withParams, sp)
 		}
 	}
-	stats.Check(t, stats.Budget{Quick: 2500, Thorough: 25000},
+	stats.Check(t, stats.Budget{Quick: 6000, Thorough: 30000},
 		"method with >= 1 parameter, a drawn prefix of argument values (all good, or one ill-typed), sent once as an array and once as an object with "+
 			"shuffled members; responses and invocation logs must be equal and match the model; non-trivial = the call binds >= 2 arguments or leaves an optional tail absent",
 		func(rt *rapid.T, c *stats.Case) {
@@ -258,7 +258,7 @@ func keysOf(out []byte) string {
 // server; the multiset of responses per batch and the global invocation log must be exactly the predicted ones.
 func TestRaceBatch(t *testing.T) {
 	hs := map[int]*harness{1: newHarness(1, true), 8: newHarness(8, true)}
-	stats.Check(t, stats.Budget{Quick: 250, Thorough: 3000},
+	stats.Check(t, stats.Budget{Quick: 1500, Thorough: 6000},
 		"1-4 concurrent HandleReader calls on one server (pool size 1 or 8), each a batch of 1-40 entries (calls of every binding shape, notifications, "+
 			"handler errors, unknown methods, bad params, invalid and non-object entries; no tolerance classes) with handlers yielding the processor; "+
 			"oracle: per batch the multiset of (id, result|error) and globally the multiset of recorded invocations, independent of order; under -race; "+
